@@ -650,6 +650,9 @@ def item_type(ty, c=None):
     m = re.match(r"^std::slice::Iter<'_?[a-z]*, (.*)>$", ty or '')
     if m:
         return '&' + m.group(1).strip()
+    m = re.match(r"^(?:std::iter::Rev<)?std::ops::(?:RangeInclusive|Range)<([a-z0-9]+)>>?$", ty or '')
+    if m:
+        return m.group(1)
     return '?'
 
 
